@@ -10,6 +10,7 @@ import (
 	"github.com/samaritan-proxy/samaritan/verifrt/sched"
 	"github.com/samaritan-proxy/samaritan/verifrt/sim/cluster"
 	"github.com/samaritan-proxy/samaritan/verifrt/sim/resp"
+	"github.com/samaritan-proxy/samaritan/verifrt/vnet"
 	"github.com/samaritan-proxy/samaritan/verifrt/vrand"
 )
 
@@ -18,6 +19,7 @@ import (
 //
 // alphabet  request(key on m0) | request(key on m1) | reset m0's connections | m0 down | m0 up |
 //           move slot group g0 m0->m1 | move slot group g1 m0->m1 (m0 may end with no slots) |
+//           connects to m0 time out (until m0 up) |
 //           refresh round (virtual 5 s) | periodic refresh (virtual 2 min) | the other nodes start listing m1 as "fail?"
 // bound     depth (quick 5, thorough 6); default schedule, random seed choice rotating fairly
 // oracle    a request whose owner is reachable gets the single-server reply; errors only while the owner is
@@ -25,7 +27,7 @@ import (
 //           requests are not redirected any more
 // ---------------------------------------------------------------------------
 
-var c07ops = []string{"req-m0", "req-m1", "reset-m0", "m0-down", "m0-up", "move-g0", "move-g1", "refresh-round", "periodic-refresh", "m1-suspected"}
+var c07ops = []string{"req-m0", "req-m1", "reset-m0", "m0-down", "m0-up", "move-g0", "move-g1", "refresh-round", "periodic-refresh", "m1-suspected", "m0-blackhole"}
 
 type c07case struct {
 	Ops []int `json:"ops"`
@@ -69,6 +71,14 @@ func c07run(cs c07case) (sig, detail string) {
 		// proxy cannot be redirected by it, so it can only learn the new owner from a refresh: errors for a
 		// moved group are tolerated until a periodic refresh (with one retry pause) has completed.
 		roundsSinceMove := map[int]int{0: -1, 1: -1}
+		// blackholed: connects to m0 time out (packets dropped) instead of being refused; lifted by m0-up
+		blackholed := false
+		vnet.SetDialHook(func(addr string) error {
+			if blackholed && addr == m0.Addr {
+				return vnet.ErrDialTimeout
+			}
+			return nil
+		})
 		for i, op := range cs.Ops {
 			switch c07ops[op] {
 			case "reset-m0":
@@ -81,11 +91,19 @@ func c07run(cs c07case) (sig, detail string) {
 					sched.WaitQuiescent()
 					faultBefore = "after the node went down"
 				}
+			case "m0-blackhole":
+				if !m0.Down && !blackholed {
+					blackholed = true
+					m0.ResetConns()
+					sched.WaitQuiescent()
+					faultBefore = "after connects to the node timed out"
+				}
 			case "m0-up":
 				if m0.Down {
 					m0.Up()
 					sched.WaitQuiescent()
 				}
+				blackholed = false
 			case "move-g0":
 				if cl.Owner[0] == m0 {
 					cl.MoveGroup(0, m1)
@@ -141,8 +159,9 @@ func c07run(cs c07case) (sig, detail string) {
 						}
 						sched.WaitQuiescent()
 						g := cl.Group(cluster.Slot([]byte(k)))
-						staleDown := m0.Down && roundsSinceMove[g] >= 0 && roundsSinceMove[g] < 2
-						if owner.Down || (staleDown && got.Kind == '-') {
+						m0gone := m0.Down || blackholed
+						staleDown := m0gone && roundsSinceMove[g] >= 0 && roundsSinceMove[g] < 2
+						if owner.Down || (owner == m0 && blackholed) || (staleDown && got.Kind == '-') {
 							if got.Kind != '-' {
 								refExec(s.ref, args)
 							}
